@@ -3,10 +3,17 @@
 MC     specs/Evict/MC_*.cfg      the loop model (repaired form) over bounded universes of cases: every call it makes is
                                  allowed by the property-level predicates, its account equals the sum over the victims
 Go     three in-package harnesses run the REAL code with a recording EvictionExecutor:
-         plugins/util        KillAndEvictPods on enumerated + seeded random tasks (order = the list handed in)
-         plugins/memoryevict real buildEvictTask (target, eligibility, sort, per-pod release) + real loop, 3 strategies
-         plugins/cpuevict    the same for the 3 cpu strategies, 1-3 simultaneous tasks
-Trace  specs/Evict/EvictTrace.tla  every seen / evict / ret event must be a step the property level allows
+         plugins/util        KillAndEvictPods on enumerated + seeded random tasks (order = the list handed in); tasks that
+                             share a target may know different resource names (projections of one table)
+         plugins/memoryevict real buildEvictTask (target, eligibility, sort, per-pod release) + real loop, 3 strategies;
+                             round mode: 2-3 rounds of the real memoryEvict() (feature gates per case) with the real
+                             DefaultEvictionExecutor / Evictor on a fake API server, victims terminate between rounds
+         plugins/cpuevict    the same for the 3 cpu strategies, 1-3 simultaneous tasks; round mode through cpuEvict()
+Trace  specs/Evict/EvictTrace.tla  every seen / evict / ret (round / end) event must be a step the property level allows.
+       In the strategy harnesses what a victim releases is computed by TLC from the INPUT (the pod's usage sample and
+       declared request), never from the figures the code reports; the candidates of a strategy are the pods of the input
+       its rule admits, not only those the code listed; whether a pod is already evicted in a later round is derived from
+       the history of the segment.
 """
 
 
@@ -19,6 +26,15 @@ def _val(m, k):
 
 
 def _contrib(cs, T, p, r):
+    if "usedRes" in cs:      # strategy case: from the pod's attributes (input), not from the code's figures
+        a = cs["pods"].get(p)
+        if a is None:
+            return 0
+        if T == "podUsed":
+            return a["used"] * cs["unit"] if r == cs["usedRes"] else 0
+        if T == "podResourceRequest":
+            return a["req"] if r == a["reqRes"] else 0
+        return 0
     best = 0
     for t in cs["tasks"]:
         if t["tt"] == T:
@@ -51,7 +67,7 @@ def _lp(a):
 def _before(cs, t, x, y):
     k = t["kind"]
     if k == "list":
-        return t["list"].index(x) < t["list"].index(y)
+        return x in t["list"] and y in t["list"] and t["list"].index(x) < t["list"].index(y)
     a, b = cs["pods"][x], cs["pods"][y]
     if k == "prio_used":
         return (_ep(a), a["prio"], _lp(a), -a["used"]) < (_ep(b), b["prio"], _lp(b), -b["used"])
@@ -78,30 +94,64 @@ def _eligible(cs, t, p):
     return a["prio"] <= t["thr"] and a["evictLabel"] == "true" and allowed
 
 
-def clauses_broken(seg, idx):
-    cs = seg[0]
+def _cand(cs, t, p):
+    if p not in cs["pods"]:
+        return False
+    if t["kind"] in ("prio_used", "prio_req"):
+        return _eligible(cs, t, p) and cs["pods"][p]["hasMetric"]
+    return _eligible(cs, t, p)
+
+
+def _orset(cs, t):
+    return sorted(set(t["list"]) | {p for p in cs["pods"] if _cand(cs, t, p)})
+
+
+def _pending_before(cs, t, p):
+    return {x for x in cs["pods"] if x != p and _cand(cs, t, x) and cs["pods"][x]["already"] and _before(cs, t, x, p)}
+
+
+def _excused(cs, t, x, V, Tr):
+    return x in Tr or x in V or cs["pods"][x]["already"] or not _useful(cs, t, x, V)
+
+
+def _state(seg, idx):
+    """the specification's state before event idx: the case (pods / tasks of the current round), victims, tried"""
+    cs = dict(seg[0])
+    cs["pods"] = {p: dict(a) for p, a in (cs.get("pods") or {}).items()}
+    cs["tasks"] = list(cs.get("tasks") or [])
     V, Tr = set(), set()
     for e in seg[1:idx]:
-        if e["op"] == "seen":
+        if e["op"] == "round":
+            cs["pods"] = {p: dict(a, already=(a["already"] or p in V)) for p, a in cs["pods"].items() if p in e["present"]}
+            cs["tasks"] = list(e["tasks"])
+            V, Tr = set(), set()
+        elif e["op"] == "seen":
             V.add(e["pod"])
         elif e["op"] == "evict":
             Tr.add(e["pod"])
             if e["ok"]:
                 V.add(e["pod"])
+    return cs, V, Tr
+
+
+def clauses_broken(seg, idx):
+    cs, V, Tr = _state(seg, idx)
     e = seg[idx]
-    if e["op"] == "ret":
+    if e["op"] in ("ret", "end"):
         out = []
         rel = e.get("released") or {}
         for t in cs["tasks"]:
             for r, n in (t.get("need") or {}).items():
-                if n > 0 and _val(rel.get(t["tt"]) or {}, r) != _released(cs, t["tt"], r, V) and "Rl" not in out:
+                if e["op"] == "ret" and n > 0 and _val(rel.get(t["tt"]) or {}, r) != _released(cs, t["tt"], r, V) and "Rl" not in out:
                     out.append("Rl")
             if _short(cs, t, V) and "Pr" not in out:
-                for x in t["list"]:
-                    if not (x in Tr or x in V or cs["pods"][x]["already"] or not _useful(cs, t, x, V)):
+                for x in _orset(cs, t):
+                    if not _excused(cs, t, x, V, Tr):
                         out.append("Pr")
                         break
         return out or ["none?"]
+    if e["op"] == "seen":
+        return ["seen-not-evicted-in-an-earlier-round"]
     if e["op"] != "evict":
         return [e["op"]]
     ti, p = e.get("task", 0), e["pod"]
@@ -113,23 +163,51 @@ def clauses_broken(seg, idx):
         out.append("El")
     if p in V or cs["pods"][p]["already"]:
         out.append("Tw")
-    if not _short(cs, t, V):
+    if not _short(cs, t, V | _pending_before(cs, t, p)):
         out.append("St")
     if not _useful(cs, t, p, V):
         out.append("Us")
-    for x in t["list"]:
-        if x != p and _before(cs, t, x, p) and not (x in Tr or x in V or cs["pods"][x]["already"] or not _useful(cs, t, x, V)):
+    for x in _orset(cs, t):
+        if x != p and _before(cs, t, x, p) and not _excused(cs, t, x, V, Tr):
             out.append("Or")
             break
     return out or ["none?"]
 
 
+def _uncredited(cs):
+    """strategy cases: the allocatable strategy has to release PLAIN cpu / memory (requested by pods of no koordinator
+    priority class) although its own per-pod function credits that resource to no pod, while the candidates do release
+    it according to the input (label only: names the defect class of proposed_fixes/C11b)"""
+    if "usedRes" not in cs:
+        return []
+    out = set()
+    r = cs["usedRes"]
+    for t in cs["tasks"]:
+        if t["tt"] != "podResourceRequest" or _val(t.get("need") or {}, r) <= 0:
+            continue
+        cands = [p for p in (t.get("c") or {}) if p in cs["pods"]]
+        code = any(_val(t["c"][p] or {}, r) > 0 for p in cands)
+        real = any(_contrib(cs, t["tt"], p, r) > 0 for p in cands)
+        if real and not code:
+            out.add(r)
+    return sorted(out)
+
+
 def sig(fl):
+    s = _sig(fl)
+    try:
+        un = _uncredited(_state(fl["segment"], fl["fail_index"])[0])
+    except Exception:
+        un = []
+    return s + (" uncredited-target=" + "+".join(un) if un else "")
+
+
+def _sig(fl):
     e = fl["event"]
     exp = fl.get("expected")
     if isinstance(exp, dict) and e.get("op") == "evict" and exp.get("known"):
         broken = [k for k in ("El", "Tw", "St", "Us", "Or") if exp.get(k) is False]
-    elif isinstance(exp, dict) and e.get("op") == "ret" and "Rl" in exp:
+    elif isinstance(exp, dict) and e.get("op") in ("ret", "end") and "Pr" in exp:
         broken = [k for k in ("Rl", "Pr") if exp.get(k) is False]
     else:
         try:
@@ -143,11 +221,12 @@ _U = "pkg/koordlet/qosmanager/plugins/"
 CONF = {
     "id": "C11", "family": "Evict",
     "mc": [
-        {"module": "MC_Evict", "cfg": "MC_one.cfg", "timeout": 900},
+        {"module": "MC_Evict", "cfg": {"quick": "MC_one_q.cfg", "thorough": "MC_one.cfg"}, "timeout": 900},
         {"module": "MC_Evict", "cfg": {"quick": "MC_twores_q.cfg", "thorough": "MC_twores.cfg"}, "timeout": 900},
         {"module": "MC_Evict", "cfg": "MC_twosame_q.cfg", "timeout": 900, "coverage": True},   # every action of the model must fire
         {"module": "MC_Evict", "cfg": {"quick": None, "thorough": "MC_twosame.cfg"}, "timeout": 1200},
         {"module": "MC_Evict", "cfg": {"quick": "MC_twodiff_q.cfg", "thorough": "MC_twodiff.cfg"}, "timeout": 1200},
+        {"module": "MC_Evict", "cfg": {"quick": None, "thorough": "MC_twoproj.cfg"}, "timeout": 1200},
     ],
     "go": [
         {"pkg": _U + "util", "test": "TestVerifC11", "pfm": True},
@@ -164,11 +243,27 @@ CONF = {
             "content hash, non-trivial = at least one recorded call or return after the reset",
     "assumptions": [
         "pods carry spec.priority (non-zero), as the priority admission plugin guarantees; candidate lists hold no duplicates",
-        "tasks with the same release target describe the same content (their per-pod figures agree where both are "
-        "defined), as in the shipped strategies; BEMemoryEvict+MemoryEvict together is excluded because MemoryEvict "
-        "records a pod's usage times 1000 (reported, outside this property)",
-        "(St) counts the pending release of an already-evicted pod from the moment the loop has asked for it "
-        "(IsPodEvicted); the stronger reading (all such pods count from the start) is reported, not judged",
-        "release target computation is observed (input to the property), not judged",
+        "loop in isolation (plugins/util): tasks with the same release target describe the same content (their per-pod "
+        "figures are projections of one table per target onto the resource names the task knows), as in the shipped strategies",
+        "strategy harnesses: what the removal of a pod releases is taken from the input - podUsed: the pod's usage sample "
+        "(cpu: cores x 1000; memory: sample x unit), podResourceRequest: the request declared on the pod under the resource "
+        "name of its priority class; a pod without a usage sample releases 0 usage and is no candidate of the priority-"
+        "threshold strategies (documented filter)",
+        "memory: the priority-threshold strategies read a pod's usage sample times 1000 (reported, outside this property): "
+        "cases in which MemoryEvict takes part are built in that unit (unit = 1000: node capacity / usage given in the small "
+        "unit), BEMemoryEvict is not combined with the two priority-threshold memory strategies",
+        "(St) counts the pending release of an already-evicted, still present pod from the moment the loop has asked for it "
+        "(IsPodEvicted) AND, whatever the loop did, of every such candidate that strictly precedes the new victim in the "
+        "published order; the stronger reading (all such pods count from the start, also those behind the victim) is "
+        "reported, not judged",
+        "rounds: between two rounds of the entry point the pod usage samples are unchanged (a terminating victim still "
+        "holds what it used), the node pressure of each round is scripted; the cool-down is over at every round; a pod "
+        "counts as already evicted iff an eviction of it was accepted in an earlier round of the segment and it is still "
+        "listed by the informer (with or without deletionTimestamp); the ReleaseList of the entry points is not observable "
+        "(clause Rl is judged in the direct runs of KillAndEvictPods only)",
+        "release target computation is observed (input to the property), not judged: in round mode by a build of the "
+        "tasks (real buildEvictTask, same state) right before the entry point runs; a target in a resource that the "
+        "strategy's own per-pod function never credits (plain cpu / memory of the allocatable strategies, "
+        "proposed_fixes/C11b) is judged like any other - such rejections carry the label uncredited-target=<resource>",
     ],
 }
